@@ -5,7 +5,7 @@
  *
  * usage: drv_alloc <cases.txt> <out.ndjson> [from-line]
  *   each line:  <scenario> <k> [k2]  k = 0: no failure (counts the allocations of the scenario); k2: a second failure
- *   scenarios:  setup get block1 block2 observe uri async oscore oscore2 (server configuration with three recipient ids) rawblock1 (a scripted peer uploads three Block1 blocks without Size1)
+ *   scenarios:  setup get block1 block2 observe uri async wkc (a resource listing of several blocks) oscore oscore2 (server configuration with three recipient ids) rawblock1 (a scripted peer uploads three Block1 blocks without Size1)
  */
 #include "simnet.h"
 #include <string.h>
@@ -211,7 +211,14 @@ static int exchange(int con, int method, const char *path, size_t body, int obs,
   cur_tok[0] = tok[0]; cur_tok[1] = tok[1];
   if (!coap_add_token(pdu, 2, tok)) goto drop;
   if (obs >= 0 && !coap_add_option(pdu, COAP_OPTION_OBSERVE, coap_encode_var_safe(buf, sizeof(buf), (unsigned)obs), buf)) goto drop;
-  if (!coap_add_option(pdu, COAP_OPTION_URI_PATH, strlen(path), (const uint8_t *)path)) goto drop;
+  {
+    const char *p = path, *sl;
+    while ((sl = strchr(p, '/'))) {
+      if (!coap_add_option(pdu, COAP_OPTION_URI_PATH, (size_t)(sl - p), (const uint8_t *)p)) goto drop;
+      p = sl + 1;
+    }
+    if (!coap_add_option(pdu, COAP_OPTION_URI_PATH, strlen(p), (const uint8_t *)p)) goto drop;
+  }
   if (body) {
     size_t i;
     uint8_t *b = malloc(body);
@@ -310,6 +317,21 @@ static void scenario(const char *sc) {
     if (res_o) { coap_resource_notify_observers(res_o, NULL); sim_run(sim_now + 100000); }
   } else if (!strcmp(sc, "rawblock1")) {
     raw_block1();
+  } else if (!strcmp(sc, "wkc")) {
+    /* a resource listing of more than one block (and more than the initial PDU buffer), served by the library itself */
+    static char names[60][24];
+    int i;
+    for (i = 0; i < 60; i++) {
+      coap_resource_t *r;
+      snprintf(names[i], sizeof(names[i]), "sensors/number-%02d", i);
+      r = coap_resource_init(coap_make_str_const(names[i]), 0);
+      if (!r) return;
+      coap_register_request_handler(r, COAP_REQUEST_GET, h_get);
+      coap_add_attr(r, coap_make_str_const("rt"), coap_make_str_const("\"temperature\""), 0);
+      coap_add_resource(sctx, r);
+    }
+    exchange(1, COAP_REQUEST_CODE_GET, ".well-known/core", 0, -1, 69, 300000);
+    exchange(0, COAP_REQUEST_CODE_GET, ".well-known/core", 0, -1, 69, 300000);
   } else if (!strcmp(sc, "async")) {
     exchange(1, COAP_REQUEST_CODE_GET, "a", 0, -1, 69, 100000);
   }
